@@ -507,6 +507,10 @@ mod tests {
     }
 }
 
+// under Kani only: `memchr::memmem::find` in this module resolves to a reference implementation
+#[cfg(kani)]
+use crate::verif_memchr as memchr;
+
 #[cfg(kani)]
 #[allow(semicolon_in_expressions_from_non_local_macros, unused)]
 mod verif_kani {
